@@ -158,7 +158,7 @@ def histories(exe, kinds, seed, n, n_poll):
             r2 = subprocess.run([exe, "hist", k, str(seed + 1), str(n_poll), "2", "12", str(cap), "poll"], stdout=subprocess.PIPE, stderr=subprocess.PIPE, text=True)
             out.append(r2.stdout)
         if k not in ("utmap", "utset"):
-            r3 = subprocess.run([exe, "hist", k, str(seed + 2), str(max(2, n_poll // 6)), "2", "5", "260", "bigrange"], stdout=subprocess.PIPE, stderr=subprocess.PIPE, text=True)
+            r3 = subprocess.run([exe, "hist", k, str(seed + 2), str(max(4, n_poll)), "2", "20", "260", "bigrange"], stdout=subprocess.PIPE, stderr=subprocess.PIPE, text=True)
             out.append(r3.stdout)
         text = "".join(out)
         d = subprocess.run([C.DRIVER], input=text, stdout=subprocess.PIPE, stderr=subprocess.PIPE, text=True)
